@@ -21,6 +21,7 @@ RULE = (
     "(drivers: unit impulses, positive, mixed sign, prescribed stocks incl. decreasing and with exact zeros). All "
     "five cohort identities are evaluated for every (t, c, label). Non-trivial = configuration actually computed "
     "(well-conditioned). Distinct by construction."
+    " Also: integer prescribed stocks, shallow copies of computed stocks computed with other arrays, n > 1 with a non-default inflow_at, 12 x 100 models."
 )
 ASSUMPTIONS = c03.ASSUMPTIONS
 LEVEL_TEXT = (
